@@ -461,6 +461,8 @@ func c13(run *core.Run, replay string) {
 	for _, ent := range entVariants("TEXT") {
 		add(trCase{T: "TEXT", Entropy: ent, Shape: "wordlist3", Size: 6200000, Seed: run.Seed, BMul: 2})
 		add(trCase{T: "TEXT", Entropy: ent, Shape: "wordlist", Size: 7000000, Seed: run.Seed + 1, BMul: 8})
+		add(trCase{T: "TEXT", Entropy: ent, Shape: "vocabrepeat", Size: 8200000, Seed: run.Seed + 2, BMul: 4})
+		add(trCase{T: "TEXT", Entropy: ent, Shape: "vocabrepeat", Size: 6000000, Seed: run.Seed + 3, BMul: 2})
 	}
 	for si, sz := range []int{1 << 20, 1500000, 2500000} {
 		for _, ent := range entVariants("TEXT") {
